@@ -756,6 +756,9 @@ class Intervals:
             ls = strip(l)
             if ls is not None and ls.get("k") == "BinaryOperator" and ls.get("op") == "=":
                 l = ls["c"][0]
+            rs = strip(r)
+            if rs is not None and rs.get("k") == "BinaryOperator" and rs.get("op") == "=":
+                r = rs["c"][0]
             a, b = self.eval(l, st), self.eval(r, st)
             na, nb = self._apply_rel(op, a, b)
             if na == "bot" or nb == "bot":
